@@ -2167,14 +2167,13 @@ class Client:
         if self._ping_t > 0 and now - self._ping_t >= self._keepalive:
             # client->ping_t != 0 means we are waiting for a pingresp.
             # This hasn't happened in the keepalive time so we should disconnect.
-            self._sock_close()
-
             if self._state in (_ConnectionState.MQTT_CS_DISCONNECTING, _ConnectionState.MQTT_CS_DISCONNECTED):
                 self._state = _ConnectionState.MQTT_CS_DISCONNECTED
                 rc = MQTTErrorCode.MQTT_ERR_SUCCESS
             else:
                 self._state = _ConnectionState.MQTT_CS_CONNECTION_LOST
                 rc = MQTTErrorCode.MQTT_ERR_KEEPALIVE
+            self._sock_close()
 
             self._do_on_disconnect(
                 packet_from_broker=False,
@@ -3059,8 +3058,6 @@ class Client:
         rc: MQTTErrorCode,
     ) -> MQTTErrorCode:
         if rc:
-            self._sock_close()
-
             if self._state in (_ConnectionState.MQTT_CS_DISCONNECTING, _ConnectionState.MQTT_CS_DISCONNECTED):
                 self._state = _ConnectionState.MQTT_CS_DISCONNECTED
                 rc = MQTTErrorCode.MQTT_ERR_SUCCESS
@@ -3068,6 +3065,7 @@ class Client:
                 # The socket is gone whatever the error was: never keep reporting
                 # a connection that no longer exists.
                 self._state = _ConnectionState.MQTT_CS_CONNECTION_LOST
+            self._sock_close()
 
             self._do_on_disconnect(packet_from_broker=False, v1_rc=rc)
 
@@ -3307,8 +3305,8 @@ class Client:
                 try:
                     self._send_pingreq()
                 except Exception:
-                    self._sock_close()
                     self._state = _ConnectionState.MQTT_CS_CONNECTION_LOST
+                    self._sock_close()
                     self._do_on_disconnect(
                         packet_from_broker=False,
                         v1_rc=MQTTErrorCode.MQTT_ERR_CONN_LOST,
@@ -3318,14 +3316,13 @@ class Client:
                         self._last_msg_out = now
                         self._last_msg_in = now
             else:
-                self._sock_close()
-
                 if self._state in (_ConnectionState.MQTT_CS_DISCONNECTING, _ConnectionState.MQTT_CS_DISCONNECTED):
                     self._state = _ConnectionState.MQTT_CS_DISCONNECTED
                     rc = MQTTErrorCode.MQTT_ERR_SUCCESS
                 else:
                     self._state = _ConnectionState.MQTT_CS_CONNECTION_LOST
                     rc = MQTTErrorCode.MQTT_ERR_KEEPALIVE
+                self._sock_close()
 
                 self._do_on_disconnect(
                     packet_from_broker=False,
@@ -4068,11 +4065,11 @@ class Client:
                        properties
                        )
 
-        self._sock_close()
         if self._state in (_ConnectionState.MQTT_CS_DISCONNECTING, _ConnectionState.MQTT_CS_DISCONNECTED):
             self._state = _ConnectionState.MQTT_CS_DISCONNECTED
         else:
             self._state = _ConnectionState.MQTT_CS_CONNECTION_LOST
+        self._sock_close()
         self._do_on_disconnect(
             packet_from_broker=True,
             v1_rc=MQTTErrorCode.MQTT_ERR_SUCCESS,  # If reason is absent (remaining length < 1), it means normal disconnection
